@@ -160,6 +160,29 @@ int main(int argc, char** argv) {
             status rc = iscan_open(st, lk, le, rk, re, rtl, ea, ctx, val, cb);
             std::string o = "{\"op\":\"iscan\",\"l\":" + vh::jbytes(lk) + ",\"le\":\"" + vh::epname(le) + "\",\"r\":" + vh::jbytes(rk) + ",\"re\":\"" + vh::epname(re) + "\",\"rtl\":" + vh::jb(rtl) + ",\"ea\":" + vh::jb(ea) + ",\"limit\":" + std::to_string(limit) + ",\"st\":\"" + vh::stname(rc) + "\",\"steps\":[";
             long n = 0; std::string lastkey; bool gotany = false, ended = false;
+            // cursor paused by the caller, a write into the tree (often into the node under the cursor), cursor resumed
+            long modafter = ((long)(rng() % 100) < argi("pmod", 0) && rc == status::OK) ? 1 + (long)(rng() % 3) : -1;
+            if (modafter > 0) {
+                std::string o2 = "{\"op\":\"iscanmod\",\"l\":" + vh::jbytes(lk) + ",\"le\":\"" + vh::epname(le) + "\",\"r\":" + vh::jbytes(rk) + ",\"re\":\"" + vh::epname(re) + "\",\"rtl\":" + vh::jb(rtl) + ",\"ea\":" + vh::jb(ea) + ",\"st\":\"" + vh::stname(rc) + "\",\"steps1\":[";
+                long got = 0; std::string last;
+                while (rc == status::OK) { last = ctx->full_key(); if (got) o2 += ","; o2 += "[" + vh::jbytes(last) + "," + (val ? std::to_string(*(int*)val) : std::string("-1")) + "]"; got++; if (got >= modafter) break; rc = iscan_next(ctx, val, cb); }
+                o2 += "],\"st1\":\"" + std::string(vh::stname(rc)) + "\"";
+                if (rc == status::OK) {
+                    // the write: insert a new key next to the last returned one, or remove a neighbour / the key itself
+                    int how = rng() % 3; std::string mk; bool isput = how != 2; status mrc; int vid = 0;
+                    if (isput) { mk = last; if (how == 0 && !mk.empty()) { mk.back() = (char)((unsigned char)mk.back() ^ (1 + rng() % 3)); } else mk.push_back((char)AL[rng() % alpha]);
+                                 if (present[mk]) { isput = false; } }
+                    if (!isput && mk.empty()) { std::vector<std::string> pk; for (auto& kv : present) if (kv.second) pk.push_back(kv.first); auto it = std::find(pk.begin(), pk.end(), last); long ix = it == pk.end() ? 0 : (long)(it - pk.begin()); long d = (long)(rng() % 3) - 1; ix = std::max(0L, std::min((long)pk.size() - 1, ix + d)); mk = pk.empty() ? last : pk[ix]; }
+                    if (isput) { vid = ++vctr; int buf[2] = {vid, 0}; mrc = put<char>(tok, st, mk, (char*)buf, 8); if (mrc == status::OK) present[mk] = true; if (std::find(keys.begin(), keys.end(), mk) == keys.end()) keys.push_back(mk); }
+                    else { mrc = remove(tok, st, mk); if (mrc == status::OK) present[mk] = false; }
+                    o2 += std::string(",\"mid\":{\"op\":\"") + (isput ? "put" : "rem") + "\",\"k\":" + vh::jbytes(mk) + ",\"v\":" + std::to_string(vid) + ",\"st\":\"" + vh::stname(mrc) + "\"},\"steps2\":[";
+                    long n2 = 0; rc = iscan_next(ctx, val, cb);
+                    while (rc == status::OK) { std::string fk = ctx->full_key(); if (n2) o2 += ","; o2 += "[" + vh::jbytes(fk) + "," + (val ? std::to_string(*(int*)val) : std::string("-1")) + "]"; n2++; if (n2 > 400) break; rc = iscan_next(ctx, val, cb); }
+                    o2 += "],\"end\":\"" + std::string(vh::stname(rc)) + "\"";
+                    { vh::Canon c2(ti); o2 += ",\"dump\":" + vh::dump_json(c2, valjson); }
+                } else o2 += ",\"mid\":{\"op\":\"none\",\"k\":[],\"v\":0,\"st\":\"\"},\"steps2\":[],\"end\":\"" + std::string(vh::stname(rc)) + "\"";
+                o2 += "}"; puts(o2.c_str()); if (ctx) iscan_close(ctx); have_read = false; continue;
+            }
             while (rc == status::OK) {
                 std::string fk = ctx->full_key(); if (n) o += ","; o += "[" + vh::jbytes(fk) + "," + (val ? std::to_string(*(int*)val) : std::string("-1")) + "]"; n++; lastkey = fk; gotany = true;
                 if (limit >= 0 && n > limit) break;
